@@ -109,7 +109,7 @@ def sections(tier):
     if tier == 'quick':
         plan = [('X1s', 60000, 170), ('X1', 60000, 170), ('X2', 60000, 170), ('X4r', 60000, 170)]
     else:
-        plan = [('X1s', 300000, 3000), ('X1', 300000, 3000), ('X2', 300000, 3000), ('X2b', 300000, 3000), ('X3', 300000, 3000)]
+        plan = [('X1s', 120000, 1200), ('X1', 120000, 1200), ('X2', 120000, 1200), ('X2b', 120000, 1200), ('X3', 120000, 1200)]
     return [S('exact:' + c, exactness(c), timeout_ms=to, budget_s=bud, replayer='D', config=c, maxpaths=64) for c, to, bud in plan]
 
 
